@@ -53,8 +53,8 @@ def from_format(template, origin=None):
     return Skeleton(text, holes, origin)
 
 
-def from_fstring(node):
-    s = str_value(node)
+def from_fstring(node, fnode=None):
+    s = str_value(node, fnode)
     if s is None:
         raise AnalysisError(f"line {getattr(node, 'lineno', '?')}: emitted fragment is not a string literal or f-string: {src(node)}")
     holes = {}
@@ -75,7 +75,8 @@ def from_fstring(node):
 class Emit:
     """One `sink.append(<template>)` in a generator, with the control context it sits in."""
 
-    def __init__(self, node, arg, sink, ctx_stack):
+    def __init__(self, node, arg, sink, ctx_stack, fnode=None):
+        self.fnode = fnode
         self.node = node          # the Call node
         self.arg = arg            # template expression
         self.sink = sink          # name of the list
@@ -85,7 +86,7 @@ class Emit:
     @property
     def skeleton(self):
         if self._sk is None:
-            self._sk = from_fstring(self.arg)
+            self._sk = from_fstring(self.arg, self.fnode)
         return self._sk
 
     @property
@@ -112,9 +113,9 @@ def emissions(fnode, sinks=None, strings_only=True):
                     and isinstance(c.func.value, ast.Name)
                     and len(c.args) == 1
                     and (sinks is None or c.func.value.id in sinks)
-                    and (not strings_only or isinstance(c.args[0], (ast.JoinedStr, ast.Constant)))
+                    and (not strings_only or str_value(c.args[0], fnode) is not None)
                 ):
-                    out.append(Emit(c, c.args[0], c.func.value.id, list(stack)))
+                    out.append(Emit(c, c.args[0], c.func.value.id, list(stack), fnode))
             elif isinstance(st, ast.If):
                 rec(st.body, stack + [("if", st.test, True)])
                 rec(st.orelse, stack + [("if", st.test, False)])
